@@ -38,6 +38,13 @@ def task(which, direction=None):
     return Task(w, f, cons[which], name=name, params=params).run()
 
 
+def task_tree_lemmas():
+    """the closure facts about Sub that the contracts use as axioms, proved in Lean from the inductive definition"""
+    return common.lean_task("C09/lemma:tree-vocabulary", "C09/lemma:tree-vocabulary/lean-proof", "SubTree.lean",
+                            "Sub (descendant-or-self): its one-level unfoldings and the closure facts sub_closed / sub_nodes / sub_height are proved in Lean 4 "
+                            "(lemmas/SubTree.lean) from the inductive definition over an abstract child relation; that the heap's child lists are that relation is by inspection")
+
+
 QUERIES = ["find_all_children", "get_ancestry", "find_child[as a function]", "find_single_node_by_path", "find_all_descendants", "find_all_nodes_by_path"]
 
 
@@ -314,7 +321,7 @@ def main(tier, seed):
     t0 = time.time()
     specs = [("props.C09", "task", {"which": f}) for f in FUNCS]
     specs += [("props.C09", "task", {"which": "shift", "direction": d}) for d in ("RIGHT", "LEFT", "other")]
-    specs += [("props.C09", "task_query", {"which": q}) for q in QUERIES] + [("props.C09", "task_lemma", {})]
+    specs += [("props.C09", "task_query", {"which": q}) for q in QUERIES] + [("props.C09", "task_lemma", {}), ("props.C09", "task_tree_lemmas", {})]
     results = common.run_tasks(specs)
     b = bounded(tier, seed)
     return common.decide(PID, tier, seed, results, b, t0, "DESIGN.md §4 C09", extra_assumptions=[
